@@ -254,7 +254,7 @@ func c01Configs(c *Ctx) []listCfg {
 	maxL, capk := 3, 3
 	kinds := []string{"LIST", "AND"}
 	if !c.Quick() {
-		maxL, capk = 5, 4
+		maxL, capk = 6, 5
 		kinds = kindNames
 	}
 	for _, k := range kinds {
